@@ -81,6 +81,9 @@ func enc(sb *strings.Builder, v V) {
 			fmt.Fprintf(sb, "%d", e)
 		}
 		sb.WriteByte(')')
+	case string:
+		// only used in replay descriptions, never sent to the model
+		fmt.Fprintf(sb, "%q", x)
 	default:
 		panic(fmt.Sprintf("enc: unsupported %T", v))
 	}
